@@ -239,7 +239,7 @@ func runC12(ctx *core.Ctx) {
 			}
 		})
 		copyN := g.Calls("io.CopyN")
-		eq := g.Calls("bytes.Equal")
+		eq := digestCompares(g, open)
 		var writes []*ssa.Call
 		writes = append(writes, fm["Write"]...)
 		writes = append(writes, fm["WriteString"]...)
@@ -260,7 +260,7 @@ func runC12(ctx *core.Ctx) {
 			cn, w := copyN[0], writes[0]
 			facts := g.FactsAtInstr(succ)
 			// order
-			chain := []ssa.Instruction{open, seek, cn, readOne, eq[0], w}
+			chain := []ssa.Instruction{open, seek, cn, readOne, eq[0].instr, w}
 			names := []string{"open", "seek", "CopyN", "read-last-byte", "hash-compare", "write-last-byte"}
 			for k := 0; k+1 < len(chain); k++ {
 				ctx.Check(g.Dominates(chain[k], chain[k+1]), "P1", "cache.copyFile#order:"+names[k]+"<"+names[k+1], chain[k+1].Pos(), "%s happens before %s on every path", names[k], names[k+1])
@@ -321,7 +321,7 @@ func runC12(ctx *core.Ctx) {
 				if !ok || !c.Call.IsInvoke() || hash == nil || ssax.Strip(c.Call.Value) != hash {
 					return
 				}
-				if c.Call.Method.Name() == "Write" && c.Call.Args[0] == buf && g.Dominates(readOne, c) && g.Dominates(c, eq[0]) {
+				if c.Call.Method.Name() == "Write" && c.Call.Args[0] == buf && g.Dominates(readOne, c) && g.Dominates(c, eq[0].instr) {
 					hashed = true
 				}
 				if c.Call.Method.Name() == "Sum" && g.Dominates(readOne, c) {
@@ -330,14 +330,25 @@ func runC12(ctx *core.Ctx) {
 			})
 			eqOK := false
 			if sum != nil {
-				a0, a1 := eq[0].Call.Args[0], eq[0].Call.Args[1]
-				isSum := func(v ssa.Value) bool { return v == ssa.Value(sum) }
+				a0, a1 := eq[0].a, eq[0].b
+				isSum := func(v ssa.Value) bool {
+					if v == ssa.Value(sum) {
+						return true
+					}
+					// the array form: a load of the array that Sum appended into (x[:0])
+					if ld, ok := v.(*ssa.UnOp); ok && ld.Op == token.MUL && len(sum.Call.Args) == 1 {
+						if sl, ok := sum.Call.Args[0].(*ssa.Slice); ok && sl.X == ld.X && sl.High != nil && isConstIntV(0)(sl.High) && g.Dominates(sum, ld) {
+							return true
+						}
+					}
+					return false
+				}
 				isOut := func(v ssa.Value) bool {
 					return ssax.DerivedFrom(v, func(x ssa.Value) bool { return origin(x) == ssa.Value(outP) || x == ssa.Value(outP) }, nil) || derivesFromAllocOf(v, outP)
 				}
 				eqOK = (isSum(a0) && isOut(a1)) || (isSum(a1) && isOut(a0))
 			}
-			ctx.Check(hashed && eqOK, "P1", "cache.copyFile#hash", eq[0].Pos(), "the last byte is added to the running hash (%v) and the digest is compared with the expected output id (%v)", hashed, eqOK)
+			ctx.Check(hashed && eqOK, "P1", "cache.copyFile#hash", eq[0].instr.Pos(), "the last byte is added to the running hash (%v) and the digest is compared with the expected output id (%v)", hashed, eqOK)
 			// gates at the committing write
 			wf := g.FactsAtInstr(w)
 			gate := func(name string, ok bool) {
@@ -346,7 +357,7 @@ func runC12(ctx *core.Ctx) {
 			gate("the source seek succeeded", ssax.KnownNil(wf, errOf(seek), true))
 			gate("the bulk copy succeeded", ssax.KnownNil(wf, errOf(cn), true))
 			gate("the last byte was read", ssax.KnownNil(wf, errOf(readOne), true))
-			gate("the digest matched", hasFact(wf, true, isVal(eq[0])))
+			gate("the digest matched", eq[0].matched(wf))
 			// success return gates: write err nil, close err nil
 			werr := errOf(w)
 			ctx.Check(werr != nil && ssax.KnownNil(facts, werr, true), "P1", "cache.copyFile#gate:write-ok", succ.Pos(), "success is returned only when the committing write succeeded")
@@ -601,4 +612,44 @@ func whoRemoves(ctx *core.Ctx, rule string) {
 			ctx.Check(ok, rule, fmt.Sprintf("%s#remove%d", shortFn(f), n), c.Pos(), "%s reachable from Put removes only a file this function itself opened for writing (a removal of any other name can make an unrelated entry unreadable)", ssax.CalleeName(&c.Call))
 		}
 	}
+}
+
+// digestCmp is a comparison of a computed digest with the expected output id: bytes.Equal of the
+// two, or (in)equality of two digest-sized arrays.
+type digestCmp struct {
+	instr   ssa.Instruction
+	val     ssa.Value
+	negated bool        // the instruction is a != comparison
+	a, b    ssa.Value   // operands (for bytes.Equal: the two slices; for arrays: the two array values)
+	isArray bool
+}
+
+func (d digestCmp) matched(facts []ssax.Fact) bool {
+	return hasFact(facts, !d.negated, isVal(d.val))
+}
+
+// digestCompares lists the digest comparisons of a function that come after instruction `after`.
+func digestCompares(g *ssax.Graph, after ssa.Instruction) []digestCmp {
+	var out []digestCmp
+	g.Instrs(func(i ssa.Instruction) {
+		if after != nil && !g.Dominates(after, i) {
+			return
+		}
+		switch x := i.(type) {
+		case *ssa.Call:
+			if ssax.CalleeName(&x.Call) == "bytes.Equal" && len(x.Call.Args) == 2 {
+				out = append(out, digestCmp{instr: x, val: x, a: x.Call.Args[0], b: x.Call.Args[1]})
+			}
+		case *ssa.BinOp:
+			if x.Op != token.EQL && x.Op != token.NEQ {
+				return
+			}
+			at, ok := x.X.Type().Underlying().(*types.Array)
+			if !ok || at.Len() < 20 {
+				return
+			}
+			out = append(out, digestCmp{instr: x, val: x, negated: x.Op == token.NEQ, a: x.X, b: x.Y, isArray: true})
+		}
+	})
+	return out
 }
